@@ -115,7 +115,7 @@ func maxRecords(nodeSize uint32) int { return int((nodeSize - 10) / 11) }
 
 func genCase(t *rapid.T) Case {
 	c := Case{
-		NodeSize:   rapid.SampledFrom([]uint32{64, 128, 512, 4096}).Draw(t, "nodeSize"),
+		NodeSize:   rapid.SampledFrom([]uint32{64, 128, 512, 4096, 64, 128, 512, 4096, 64, 128, 512, 4096, 65536, 69632}).Draw(t, "nodeSize"),
 		OffsetSize: rapid.SampledFrom([]uint8{8, 8, 8, 4}).Draw(t, "offsetSize"),
 		Base:       rapid.SampledFrom([]uint64{0, 0, 0, 65000, 70000, 1 << 18, 1 << 20}).Draw(t, "base"),
 		Collide:    rapid.IntRange(0, 19).Draw(t, "collide") == 0,
@@ -159,7 +159,11 @@ func genCase(t *rapid.T) Case {
 				op.F = true
 			}
 		case "fill":
-			op.N = rapid.IntRange(1, capacity+3).Draw(t, "count")
+			hi := capacity + 3
+			if hi > 600 {
+				hi = 600 // nodes of 64 KiB and more are never filled to the brim (the name table is not that large)
+			}
+			op.N = rapid.IntRange(1, hi).Draw(t, "count")
 			op.V = valGen.Draw(t, "v")
 		case "lazy_on":
 			op.T = rapid.SampledFrom([]float64{0.05, 0, -1, 0.2, 0.5, 1, 0.01}).Draw(t, "threshold")
